@@ -110,7 +110,7 @@ fn main() {
             }
         }
         let a = runners::artefacts::compile_artefacts(&src, m.contains_key("sched"), true);
-        let mut out = json!({"digest": a.digest(), "texts": a.texts});
+        let mut out = json!({"digest": if m.contains_key("diags") { a.digest_with_diagnostics() } else { a.digest() }, "texts": a.texts, "diagnostics": a.diagnostics});
         if m.contains_key("twice") {
             let b = runners::artefacts::compile_artefacts(&src, m.contains_key("sched"), true);
             out["digest2"] = json!(b.digest());
